@@ -115,7 +115,7 @@ def check(drv, pid, spec, tier, seed, t0):
     files += corp[:cfg["memcheck_corpus"]]
     if os.path.isdir(seeds):
         files += [os.path.join(seeds, f) for f in sorted(os.listdir(seeds))]
-    artdir = os.path.join(drv.VERIF, "replays", pid)
+    artdir = os.path.join(drv.REPLAY_ROOT, pid)
     os.makedirs(artdir, exist_ok=True)
     vfound, vdone = memcheck(drv, pid, files, artdir, 16)
     seen = set()
